@@ -12,9 +12,9 @@ var Profiles = map[string]Profile{
 	// spec lab, signatures: C06
 	"signatures": {Name: "signatures", MaxControllers: 3, MaxMethods: 6, MultiPkg: true, MultiFile: true, Hidden: true, Deprecated: true,
 		ParamIn: allIn, ParamTypeLevel: 2, Validators: true, Models: 1, CustomErrors: true, Responses: true, RouteStyle: "clean",
-		Descriptions: true, WireNames: true, CtxParams: true, AnyBytesTime: true, NestedSlices: true, GroupedParams: true, RepeatedErrCodes: true, LookalikeTypes: true},
+		Descriptions: true, WireNames: true, CtxParams: true, AnyBytesTime: true, NestedSlices: true, GroupedParams: true, RepeatedErrCodes: true, LookalikeTypes: true, SameWireAcrossLocations: true},
 	// spec lab, models: C07
-	"models": {Name: "models", MaxControllers: 2, MaxMethods: 5, MultiPkg: true, MultiFile: false, ParamIn: []string{"path", "query", "body"},
+	"models": {Name: "models", MaxControllers: 2, MaxMethods: 5, MultiPkg: true, MultiFile: false, ParamIn: []string{"path", "query", "header", "form", "body"},
 		ParamTypeLevel: 2, Models: 2, FieldValidators: true, CustomErrors: true, RouteStyle: "clean", Maps: true, HiddenJSON: true,
 		Descriptions: true, AnyBytesTime: true, NestedSlices: true, UsageValidators: true, SameNameTypes: true, ErrorEmbeds: true},
 	// spec lab, security: C04
